@@ -74,6 +74,9 @@ def alphabet(tier):
         {"algo": "snp", "items": C, "k": 3, "out": "Sums"}, {"algo": "rnp", "items": C, "k": 4, "out": "SortedSums"},
         {"algo": "cg", "items": C, "k": 3, "out": "Sums", "kw": {}}, {"algo": "kk", "items": A, "k": 3, "out": "Sums"},
         {"algo": "bc", "items": C, "B": 10, "out": "BinCount"}, {"algo": "twothirds", "items": [5, 3, 3, 2, 1, 1], "B": 6, "out": "Sums"},
+        # a perfect Karmarkar-Karp start (the searches return before their main loop), one-bin requests
+        {"algo": "snp", "items": [4, 4, 2, 2], "k": 2}, {"algo": "rnp", "items": [3, 3, 3], "k": 3}, {"algo": "ckk", "items": A, "k": 1},
+        {"algo": "snp", "items": C, "k": 1}, {"algo": "cg", "items": A, "k": 1, "kw": {}},
         # failing calls
         {"algo": "ff", "items": [3, 9], "B": 6}, {"algo": "bc", "items": [3, 9, 2], "B": 6},
         {"algo": "cbldm", "items": A, "k": 3}, {"algo": "cbldm", "items": [3, -1], "k": 2},
@@ -290,6 +293,9 @@ def grid_families(tier):
                 for a in ("kk", "ckk", "snp", "rnp"):
                     for out in ("PartitionAndSumsTuple", "Sums"):
                         f2.append({"algo": a, "items": items, "k": k, "fmt": fmt, "out": out})
+            if fmt == "list":
+                for a in ("ckk", "snp", "kk"):
+                    f2.append({"algo": a, "items": items, "k": 1, "fmt": fmt, "out": "Sums"})
                 if k ** len(items) <= 1100:
                     for o in scopes.CG_OBJECTIVES:
                         fdp.append({"algo": "dp", "items": items, "k": k, "fmt": fmt, "kw": {"objective": o}})
@@ -498,6 +504,9 @@ def sweep(arg):
                     cases.append({"algo": "cg", "items": list(it), "k": k, "kw": {"objective": o}})
                 if len(it) <= 3 and k <= 3:
                     cases.append({"algo": "ilp", "items": list(it), "k": k, "kw": {}})
+                    if k == 2:      # options given as containers: they are the caller's objects too
+                        cases.append({"algo": "ilp", "items": list(it), "k": k, "kw": {"copies": [1 + (j % 2) for j in range(len(it))]}})
+                        cases.append({"algo": "ilp", "items": list(it), "k": k, "kw": {"weights": [1, 2], "objective": "MaximizeSmallestSum"}})
         elif scope == "packing":
             cases = [{"algo": a, "items": list(it), "B": size} for a in scopes.PACK_ALGOS]
         else:
@@ -511,8 +520,12 @@ def sweep(arg):
                 case = dict(base, fmt=fmt)
                 items, valueof, d = repo.present(case["items"], fmt)
                 before = _snapshot_arg(items)
+                kw_before = repr(case.get("kw"))
                 r1 = _raw_call(case, items, valueof)
                 after1 = _snapshot_arg(items)
+                if repr(case.get("kw")) != kw_before:
+                    acc.violation(case["algo"], cfg_str(case), inp_str(case), "option_container_modified", kw_before, repr(case.get("kw")), dict(case, part="sweep", kw=eval(kw_before)))
+                    case = dict(case, kw=eval(kw_before))
                 p1 = repo._plain(copy.deepcopy(r1))
                 r2 = _raw_call(case, items, valueof)
                 after2 = _snapshot_arg(items)
@@ -567,6 +580,12 @@ def explore(tier, seed, pmap):
             if h["fp0"] != fp0:
                 acc.violation("harness", "", _label(A[i]), "initial_fingerprint_varies", "identical pristine states", F.diff(fp0, h["fp0"]), None)
             d = F.diff(h["fp0"], h["steps"][0]["fp"])
+            for lab in F.ENV_THAT_CHANGES_RESULTS:
+                if lab in d:
+                    # numpy's error mode / warnings-as-errors left changed: what later arithmetic does (in prtpy and in the
+                    # caller's own code) now depends on this call having been made
+                    acc.violation(A[i]["algo"], cfg_str(A[i]), inp_str(A[i]), "numeric_environment_left_changed_by_call", d[lab][0], d[lab][1],
+                                  {"part": "env", "tier": tier, "history": [i]})
             if d:
                 # state kept across calls is not by itself a violation (a cache with a complete key leaves every result
                 # unchanged): it voids the one-abstract-state argument, which evidence then says, and the decision rests on
@@ -730,6 +749,14 @@ def replay(case, acc):
         refh = _in_child(_execute_history, [A[last]])
         if h["steps"][-1]["obs"] != refh["steps"][0]["obs"]:
             acc.violation(A[last]["algo"], cfg_str(A[last]), inp_str(A[last]), "result_depends_on_history", refh["steps"][0]["obs"], h["steps"][-1]["obs"], case)
+    elif part == "env":
+        A = alphabet(case["tier"])
+        h = _in_child(_execute_history, [A[i] for i in case["history"]])
+        d = F.diff(h["fp0"], h["steps"][-1]["fp"])
+        for lab in F.ENV_THAT_CHANGES_RESULTS:
+            if lab in d:
+                c = A[case["history"][-1]]
+                acc.violation(c["algo"], cfg_str(c), inp_str(c), "numeric_environment_left_changed_by_call", d[lab][0], d[lab][1], case)
     elif part == "aged":
         c = dict(aged_calls()[case["index"]], out="PartitionAndSumsTuple")
         fresh, aged, nolimit = _in_child(_aged_child, aged_calls()[case["index"]])
